@@ -113,10 +113,11 @@ Fixpoint judge_queries (prints : list bytes) (lz : lazy) (k : Z)
       then judge_queries prints lz (k + 1) qs' else k
   end.
 
+(* Atom.String is supplied for the cases written with the deterministic option (it is a sort key there) *)
 Definition astr_ok (prints : list bytes) (store : list (bytes * Z * list (list Z))) (astr : list (list bytes)) : bool :=
-  list_eqb (fun e strs => let '(s, _, rows) := e in
+  match astr with [] => true | _ => list_eqb (fun e strs => let '(s, _, rows) := e in
                           list_eqb (fun r t => bytes_eqb (atom_string Z (t_print prints) s r) t) rows strs)
-           store astr.
+           store astr end.
 
 Definition model_file (c : case) : option bytes :=
   let '(Case prints store hashes _ det _ _ _ _) := c in
